@@ -136,4 +136,16 @@ func (rl *RateLimiter) Handle(ctx *context.Context) (result string)
   ghost at select-case[1]: gCancelled := true
   ghost at select-case[2]: gTimerFired := true
   invariant[1] gRule == -1 && !gTimerFired && !gCancelled && (forall k int :: 0 <= k && k < idx$1 ==> !ruleHits(rl.spec, k, ctx))
+
+// ---- C13 / C11: the kind's constructors (function literals of the package-level kind variable) ----
+// filters.NewSpec unmarshals the user's YAML into what DefaultSpec returns, and every generation of a pipeline
+// gets its filter from CreateInstance: both must hand out an object of their own on every call, and the
+// instance must be bound to exactly the spec it was created for
+func kind.DefaultSpec() (s filters.Spec)
+  flag allocates
+  ensures a-fresh-spec-of-this-kind: typeIs(s, "*Spec") && ifaceVal(s) != 0 && fresh(ptr(ifaceVal(s), "*Spec"))
+func kind.CreateInstance(spec filters.Spec) (f filters.Filter)
+  flag allocates
+  requires typeIs(spec, "*Spec")
+  ensures a-fresh-instance-bound-to-its-spec: typeIs(f, "*RateLimiter") && ifaceVal(f) != 0 && fresh(ptr(ifaceVal(f), "*RateLimiter")) && ref(ptr(ifaceVal(f), "*RateLimiter").spec) == ifaceVal(spec)
 @*/
